@@ -37,16 +37,23 @@ package filtering
 
 // Files of the package's own cache directory: data/filters/<id>.txt.
 //@ func (d *DNSFilter) load(flt *FilterYAML) (err error)
-//@   property C17
+//@   property C17, C15
 //@   modifies *
 //@   callsite os.Open(name) requires name == flt.Path(d.conf.DataDir)
 
 // Rule storages read the cache files recorded in the Filter entries (composed by this package from the data directory).
+// storArr[rs]: the array of the filter slice a rule storage was built from (which lists it holds).
+//@ ghost var storArr map[int]int
 //@ func newRuleStorage(filters []Filter) (rs *filterlist.RuleStorage, err error)
 //@   property C17
+//@   ensures own-storage: err == nil ==> rs != nil && fresh(rs)
+//@   ghost at return: storArr[rs] = arrayOf(filters)
 //@   modifies *
 //@   callsite os.ReadFile(name) requires name == f.FilePath
 
+//@ func ValidateUpdateIvl(i uint32) (r0 bool)
+//@   pure-function
+//@   modifies nothing
 // The patterns in force are exactly the configured ones, in order - in particular none when none is configured (then no
 // local file is readable at all).  Stated as the invariant of the loop of New that copies them; d.safeFSPatterns has no
 // other assignment in the package.
@@ -64,6 +71,40 @@ package filtering
 //@   loop 1 invariant forall k int :: 0 <= k && k < #i ==> d.safeFSPatterns[k] == c.SafeFSPatterns[k]
 
 //@ sweep C17 os.Open, os.ReadFile, os.OpenFile
+
+// ---- C01 (engines): the block engine is built from the block lists, the allow engine from the allow lists ----
+// (both parameters of initFiltering have the same type, so a swap compiles)
+// (initFiltering(allowFilters, blockFilters) itself builds the block engine from its second argument; that body is not
+// under contract - its postcondition over the two engine ghosts did not discharge - so what is proved is that every
+// caller passes the allow lists first and the block lists second.)
+//@ func (d *DNSFilter) setFilters(blockFilters []Filter, allowFilters []Filter, async bool) (r0 error)
+//@   property C01
+//@   callsites-only
+//@   requires !held(d.engineLock) && !rheld(d.engineLock)
+//@   requires !held(d.filtersInitializerLock)
+//@   callsite (*github.com/AdguardTeam/AdGuardHome/internal/filtering.DNSFilter).initFiltering(dd, a, b) requires lists-in-their-places: a == allowFilters && b == blockFilters
+//@   modifies *
+//@ func (d *DNSFilter) updatesLoop()
+//@   property C01
+//@   callsites-only
+//@   requires nolocks()
+//@   callsite (*github.com/AdguardTeam/AdGuardHome/internal/filtering.DNSFilter).initFiltering(dd, a, b) requires lists-in-their-places: a == params.allowFilters && b == params.blockFilters
+//@   modifies *
+
+// ---- C01 (protection switch): the switch and the end of a pause are stored together ----
+// Switching protection on ends a pause: whatever deadline was stored is replaced by the one given (nil when switching on),
+// otherwise "enabled, but paused until later" would keep blocked names flowing upstream.
+//@ func (d *DNSFilter) SetProtectionStatus(status bool, disabledUntil *time.Time)
+//@   property C01
+//@   nullable disabledUntil
+//@   requires !held(d.confMu) && !rheld(d.confMu)
+//@   ensures both-stored: d.conf.ProtectionEnabled == status && d.conf.ProtectionDisabledUntil == disabledUntil
+//@   modifies d.conf.ProtectionEnabled, d.conf.ProtectionDisabledUntil
+//@ func (d *DNSFilter) ProtectionStatus() (status bool, disabledUntil *time.Time)
+//@   property C01
+//@   requires !held(d.confMu) && !rheld(d.confMu)
+//@   ensures status == d.conf.ProtectionEnabled && disabledUntil == d.conf.ProtectionDisabledUntil
+//@   modifies nothing
 
 // ---- C01 (list switches): a list that is switched off is unloaded ----
 // Representation invariant of the configured lists: a disabled list has no checksum (and no rule count).  It is what makes
@@ -85,6 +126,17 @@ package filtering
 //@   modifies *
 
 // ---- C18: every list of blocked services is applied under its own pause schedule ----
+// The configuration-modified callback writes the configuration file and changes nothing here (assumed for the function
+// value stored in the field).
+//@ func (fieldcall) Config_ConfigModified()
+//@   modifies nothing
+// The legacy "set" request replaces the list of services and leaves the pause schedule alone.
+//@ func (d *DNSFilter) handleBlockedServicesSet(w http.ResponseWriter, r *http.Request)
+//@   property C18
+//@   requires nolocks()
+//@   requires d.conf.BlockedServices != nil
+//@   ensures schedule-kept: d.conf.BlockedServices != nil && d.conf.BlockedServices.Schedule == old(d.conf.BlockedServices.Schedule)
+//@   modifies *
 // The global list under the global schedule, a client's own list under that client's schedule - and only while the
 // schedule consulted for it is not pausing.
 //@ func (d *DNSFilter) ApplyBlockedServicesList(setts *Settings, list []string)
@@ -96,8 +148,11 @@ package filtering
 //@   requires d.conf.BlockedServices != nil && d.conf.BlockedServices.Schedule != nil
 //@   callsite (*github.com/AdguardTeam/AdGuardHome/internal/filtering.DNSFilter).ApplyBlockedServicesList(dd, st, ids) requires global-list-under-global-schedule: ids == d.conf.BlockedServices.IDs && lastSched == d.conf.BlockedServices.Schedule && !lastPaused
 //@   modifies *
+// (C04: a client that has its own list of blocked services gets that list and nothing of the global one - also while its
+// own schedule is pausing: then it gets no service rules at all.)
 //@ func (d *DNSFilter) ApplyAdditionalFiltering(cliAddr netip.Addr, clientID string, setts *Settings)
-//@   property C18
+//@   property C18, C04
+//@   ensures own-list-replaces-the-global-one: setts.BlockedServices != nil && lastPaused ==> len(setts.ServicesRules) == 0
 //@   requires !held(d.confMu) && !rheld(d.confMu)
 //@   requires d.conf.BlockedServices != nil && d.conf.BlockedServices.Schedule != nil
 //@   callsite (*github.com/AdguardTeam/AdGuardHome/internal/filtering.DNSFilter).ApplyBlockedServicesList(dd, st, ids) requires own-list-under-own-schedule: ids == setts.BlockedServices.IDs && lastSched == setts.BlockedServices.Schedule && !lastPaused
@@ -123,6 +178,15 @@ package filtering
 //@   requires filepath.IsAbs(flt.URL) ==> patternsOK(d, filepath.Clean(flt.URL))
 //@   modifies *
 //@   ensures replaced-only-after-successful-parse: ok ==> parseOK
+
+// Every list is parsed by a parser of its own (a parser accumulates rule count and checksum and is never reset), and a
+// download counts only with status 200.
+//@ package-callsite (*github.com/AdguardTeam/AdGuardHome/internal/filtering/rulelist.Parser).Parse(p, dst, src, buf) requires parser-of-its-own: fresh(p)
+//@ sweep C15 (*github.com/AdguardTeam/AdGuardHome/internal/filtering/rulelist.Parser).Parse
+//@ func (d *DNSFilter) readerFromURL(fltURL string) (r io.ReadCloser, err error)
+//@   property C15
+//@   ensures only-status-200: err == nil ==> lastStatus == 200
+//@   modifies *
 
 //@ sweep C14 os.WriteFile, os.Create, os.OpenFile, os.Truncate, github.com/google/renameio/v2/maybe.WriteFile, github.com/google/renameio/v2.WriteFile
 
@@ -194,6 +258,16 @@ package filtering
 //@   ensures cname-entry: rw != nil && rw.Answer != "A" && rw.Answer != "AAAA" && res1(netip.ParseAddr(rw.Answer)) != nil ==> rw.Type == 5
 //@   ensures text-kept: rw != nil ==> err == nil && rw.Answer == old(rw.Answer) && rw.Domain == strings.ToLower(old(rw.Domain))
 //@   modifies rw.Domain, rw.IP, rw.Type
+// A copy of the table is a copy of every field of every entry - the derived ones (address, type) included: the copy may
+// end up as the live table (WriteDiskConfig is handed the very configuration object the filter uses).
+//@ func cloneRewrites(entries []*LegacyRewrite) (clone []*LegacyRewrite)
+//@   property C06
+//@   requires forall k int :: 0 <= k && k < len(entries) ==> entries[k] != nil
+//@   ensures len(clone) == len(entries)
+//@   ensures same-entries: forall k int :: {clone[k]} 0 <= k && k < len(entries) ==> clone[k] != nil && clone[k].Domain == entries[k].Domain && clone[k].Answer == entries[k].Answer && clone[k].IP == entries[k].IP && clone[k].Type == entries[k].Type
+//@   modifies nothing
+//@   loop 1 invariant 0 <= #i && #i <= len(entries) && len(clone) == len(entries) && fresh(arrayOf(clone))
+//@   loop 1 invariant forall k int :: {clone[k]} 0 <= k && k < #i ==> clone[k] != nil && fresh(clone[k]) && clone[k].Domain == entries[k].Domain && clone[k].Answer == entries[k].Answer && clone[k].IP == entries[k].IP && clone[k].Type == entries[k].Type
 //@ define isCN(r *LegacyRewrite) bool = r.Type == 5
 //@ define isWild(p string) bool = len(p) > 1 && p[0] == '*' && p[1] == '.'
 //@ define hostMatches(e *LegacyRewrite, host string) bool = e.Domain == host || (isWild(e.Domain) && strings.HasSuffix(host, e.Domain[1:]))
